@@ -49,6 +49,13 @@ func NumSites() int { return len(verifsim.SiteTable) - 1 }
 // range-over-map loop inside go-cose (nil: canonical sorted order).
 func SetPermHook(f func(n int) []int) { verifsim.PermHook = f }
 
+// SetNowHook installs the wall clock every time.Now/Since/Until inside
+// go-cose reads (nil: the machine's).
+func SetNowHook(f func() time.Time) { verifsim.NowHook = f }
+
+// ClockReads is the number of clock reads by go-cose so far.
+func ClockReads() uint64 { return verifsim.ClockReads }
+
 // ---------------------------------------------------------------------------
 // The scheduler.  Caller tasks are real goroutines, but exactly one is
 // runnable at any instant and the successor at every yield point is a pure
